@@ -1,3 +1,6 @@
 import TdmsProofs.Properties.C12
 import TdmsProofs.Properties.C16
 import TdmsProofs.Properties.C17
+import TdmsProofs.Properties.C18
+import TdmsProofs.Properties.C18ExpSound
+import TdmsProofs.Properties.C20
